@@ -1946,9 +1946,66 @@ def _coalesce_copies(fn):
     return changed
 
 
+_RESIZERS = ("append", "extend", "insert", "pop", "remove", "clear", "popleft", "appendleft", "add", "discard", "update", "setdefault", "popitem", "resize")
+
+
+def _len_temps(fn):
+    """n = len(X), bound once at the top level of the function, X a parameter or local that the function neither rebinds
+    afterwards nor resizes: `n` is `len(X)` wherever it is read (a loop bound hoisted into a local)"""
+    params = {a.arg for a in ast.walk(fn.args) if isinstance(a, ast.arg)}
+    stores = {}
+    for n in ast.walk(fn):
+        if isinstance(n, ast.Name) and isinstance(n.ctx, (ast.Store, ast.Del)):
+            stores[n.id] = stores.get(n.id, 0) + 1
+    done = False
+    for st in list(fn.body):
+        if not (isinstance(st, ast.Assign) and len(st.targets) == 1 and isinstance(st.targets[0], ast.Name) and isinstance(st.value, ast.Call)
+                and isinstance(st.value.func, ast.Name) and st.value.func.id == "len" and len(st.value.args) == 1 and isinstance(st.value.args[0], ast.Name) and not st.value.keywords):
+            continue
+        n_, x_ = st.targets[0].id, st.value.args[0].id
+        if stores.get(n_, 0) != 1 or n_ in params or n_ == x_:
+            continue
+        x_stores = stores.get(x_, 0)
+        if x_ in params and x_stores != 0 or x_ not in params and x_stores != 1:
+            continue
+        if x_ not in params:
+            # the single binding of X lies before this statement
+            first = next((i for i, s2 in enumerate(fn.body) if any(isinstance(m, ast.Name) and m.id == x_ and isinstance(m.ctx, ast.Store) for m in ast.walk(s2))), None)
+            if first is None or first >= fn.body.index(st):
+                continue
+        resized = False
+        for m in ast.walk(fn):
+            if isinstance(m, ast.Call) and isinstance(m.func, ast.Attribute) and isinstance(m.func.value, ast.Name) and m.func.value.id == x_ and m.func.attr in _RESIZERS:
+                resized = True
+            elif isinstance(m, ast.AugAssign) and isinstance(m.target, ast.Name) and m.target.id == x_:
+                resized = True
+            elif isinstance(m, (ast.Assign, ast.Delete)):
+                for t in (m.targets if isinstance(m, (ast.Assign, ast.Delete)) else []):
+                    if isinstance(t, ast.Subscript) and isinstance(t.value, ast.Name) and t.value.id == x_ and (isinstance(t.slice, ast.Slice) or isinstance(m, ast.Delete)):
+                        resized = True
+            elif isinstance(m, (ast.FunctionDef, ast.Lambda)) and m is not fn and any(isinstance(k, ast.Name) and k.id in (n_,) for k in ast.walk(m)):
+                resized = True
+        if resized:
+            continue
+
+        class R(ast.NodeTransformer):
+            def visit_Name(self, k):
+                if k.id == n_ and isinstance(k.ctx, ast.Load):
+                    return ast.copy_location(ast.Call(func=ast.Name(id="len", ctx=ast.Load()), args=[ast.Name(id=x_, ctx=ast.Load())], keywords=[]), k)
+                return k
+        idx = fn.body.index(st)
+        fn.body[idx:idx + 1] = []
+        for i, s2 in enumerate(fn.body):
+            fn.body[i] = ast.fix_missing_locations(R().visit(s2))
+        STATS["len_temp"] = STATS.get("len_temp", 0) + 1
+        done = True
+    return done
+
+
 def normalize_function(fn):
     _strip_annotations(fn)
     _coalesce_copies(fn)
+    _len_temps(fn)
     _defs_to_lambdas(fn)
     if UNALIAS[0]:
         _unalias(fn)
